@@ -141,6 +141,12 @@ def affine(R, kind=None):
     if k == "uniform":
         s = R.choice([2.0, 0.5, R.uniform(0.05, 20)])
         return k, (s * ct, s * st, -s * st, s * ct, c(), c())
+    if k == "extreme":
+        # a similarity (optionally mirrored) far from unit scale: determinants down to 1e-14 and up to 1e8, condition 1
+        s = R.choice([R.uniform(1e-7, 1e-6), R.uniform(1e-6, 1e-4), R.uniform(1e2, 1e4)])
+        if R.random() < 0.6:
+            return k, (s * ct, s * st, s * st, -s * ct, c(), c())
+        return k, (s * ct, s * st, -s * st, s * ct, c(), c())
     if k == "reflect":
         which = R.random()
         if which < 0.3:
